@@ -172,8 +172,20 @@ def main():
     # 4./5. correspondences (exact, evaluated inside Coq)
     corr_stats = []
     corr_fail_cases = []
+    def safe_jobs():
+        it = iter(mod.corr_jobs(tier, rng))
+        while True:
+            try:
+                yield next(it)
+            except StopIteration:
+                return
+            except Exception as e:
+                # the implementation (or the harness) crashed while the cases were being produced
+                broken.append(('corr-harness', '%s: %s | %s' % (type(e).__name__, str(e)[:300], traceback.format_exc()[-600:])))
+                cov['obligations'] += 1
+                return
     if build_ok:
-        for job in mod.corr_jobs(tier, rng):
+        for job in safe_jobs():
             name, module, runner, cases = job['name'], job['module'], job['runner'], job['cases']
             try:
                 bad, errs, nfiles = vlib.run_cases('%s_%s' % (prop, name), module, runner, cases)
